@@ -94,7 +94,7 @@ pub fn strategy() -> impl Strategy<Value = Lit> {
         prop_oneof![8 => Just(Deco::None), 1 => Just(Deco::Minus), 1 => Just(Deco::Plus), 1 => Just(Deco::Fraction), 1 => Just(Deco::Exponent), 1 => Just(Deco::LeadingZeros)],
         // (the last four are whitespace for Unicode, not for ASCII)
         prop::sample::select(vec!["", "", " ", "  ", "\t", " \t ", "", " ", "\u{a0}", "\u{3000}", " \u{2009}", "\u{205f}"]),
-        prop_oneof![3 => Just(0u8), 8 => Just(1u8), 2 => Just(2u8), 1 => Just(3u8), 2 => Just(4u8)],
+        prop_oneof![3 => Just(0u8), 8 => Just(1u8), 2 => Just(2u8), 1 => Just(3u8), 2 => Just(4u8), 2 => Just(5u8)],
         any::<u16>(),
         any::<u32>(),
         prop_oneof![6 => Just(("", "")), 1 => Just((" ", "")), 1 => Just(("", " ")), 1 => Just(("\t", " "))],
@@ -115,6 +115,15 @@ pub fn strategy() -> impl Strategy<Value = Lit> {
                 4 => {
                     let u = if interval { randcase(*pick(&TIME_UNITS[..], ui), mask) } else { randcase(pick(&SIZE_UNITS[..], ui).0, mask) };
                     format!("{}{}", u, [" x", " 3", " 12 hours", "\tago", " kb", " 1", "\0", "\0\0\0", "\u{200b}", "\u{7f}", "\u{1}", ".", ";", "\u{feff}"][(mask as usize >> 8) % 14])
+                }
+                // a documented unit in which one letter is replaced by a character whose code point agrees with the
+                // letter's in the low 8 or 16 bits (what a narrowing cast of the character would keep)
+                5 => {
+                    let u = if interval { randcase(*pick(&TIME_UNITS[..], ui), mask) } else { randcase(pick(&SIZE_UNITS[..], ui).0, mask) };
+                    let n = u.chars().count();
+                    let at = (mask as usize >> 3) % n;
+                    let add = [0x100u32, 0x200, 0x2100, 0xFF00, 0x1_0000, 0x1_F400, 0x2_0000, 0x300][(mask as usize >> 11) % 8];
+                    u.chars().enumerate().map(|(i, c)| if i == at { char::from_u32(c as u32 + add).unwrap_or('\u{101}') } else { c }).collect()
                 }
                 // long junk: ASCII padding of 24..40 bytes followed by multi-byte characters (straddling byte 32, 64)
                 _ => format!("{}{}", "x".repeat(24 + (ui as usize % 17)), ["é", "漢", "😀", "é漢😀é漢😀é漢😀é漢😀"][(mask % 4) as usize]),
